@@ -31,7 +31,7 @@ extern TestReporter *create_libxml_reporter(const char *prefix);
 
 #define MAXT 4096
 #define MAXS 1024
-#define MAXA 20000
+#define MAXA 400000
 
 typedef struct { char kind; int arg; } ActC;      /* P F S p(MP) f(MF) K E U Z */
 typedef struct {
@@ -72,8 +72,8 @@ static TestC *current(void) {
     current_path(path);
     for (int i = 0; i < ntests; i++)
         if (strcmp(tests[i].path, path) == 0) return &tests[i];
-    fprintf(stderr, "scenario_run: no test for path %s\n", path);
-    abort();
+    /* test code running outside any test's start/finish bracket: logged (with the path as it is), judged by the oracle */
+    return NULL;
 }
 
 static int decl_counter;
@@ -95,9 +95,9 @@ static void do_acts(ActC *acts, int n) {
     }
 }
 
-static void scripted_body(void) { TestC *t = current(); log_event("body"); decl_counter = 0; do_acts(t->body, t->nbody); }
-static void ctx_setup(void) { TestC *t = current(); log_event("ctxSetup"); do_acts(t->setup, t->nsetup); }
-static void ctx_teardown(void) { TestC *t = current(); log_event("ctxTeardown"); do_acts(t->teardown, t->nteardown); }
+static void scripted_body(void) { TestC *t = current(); log_event("body"); decl_counter = 0; if (t) do_acts(t->body, t->nbody); }
+static void ctx_setup(void) { TestC *t = current(); log_event("ctxSetup"); if (t) do_acts(t->setup, t->nsetup); }
+static void ctx_teardown(void) { TestC *t = current(); log_event("ctxTeardown"); if (t) do_acts(t->teardown, t->nteardown); }
 static void suite_setup(void) { log_event("suiteSetup"); }
 static void suite_teardown(void) { log_event("suiteTeardown"); }
 
@@ -132,7 +132,7 @@ int main(int argc, char **argv) {
     if (argc < 4) { fprintf(stderr, "usage: scenario_run file reporter outdir\n"); return 2; }
     const char *reporter_kind = argv[2];
     const char *outdir = argv[3];
-    char buf[70000];
+    static char buf[1000000];
     FILE *in = fopen(argv[1], "r");
     if (!in) { perror(argv[1]); return 2; }
     main_pid = getpid();
